@@ -208,34 +208,75 @@ def C20_2(ctx, facts):
 
 
 def C20_4(ctx, facts):
-    f = facts.unit(facts.method("server::conn::tls::sni::ValidateSNIService", "Service", "call"))
-    ctx.touched(f)
-    hc = f.calls("server::conn::tls::sni::handle")
-    inner = [c for c in f.calls() if norm(c.decl or c.name).endswith("Service::call")]
-    ctx.floor("ValidateSNIService::call|handle", len(hc), 1, "handle() call")
-    ctx.floor("ValidateSNIService::call|inner-call", len(inner), 1, "inner service call")
-    for c in inner:
-        ok, w = f.guarded(c.bb, L_variant(f, "None", of_call="server::conn::tls::sni::handle"))
-        ctx.check(ok, "ValidateSNIService::call|forward-only-if-accepted", "the inner service is called only when handle() returned None (no rejection)",
-                  "the inner service can be called although the request was rejected", c.where(), f.path_desc(w))
-        rr = f.roots(c.args[1], through_calls=False)
-        ctx.check(any(r.kind == "arg" and r.desc == "req" for r in rr), "ValidateSNIService::call|same-request", "the inner service receives the caller's request", "inner request roots %s" % sorted(map(repr, rr)), c.where())
-        rs = f.roots(c.args[0])
-        ctx.check(any(r.kind == "arg" and r.desc.startswith("self.inner") for r in rs), "ValidateSNIService::call|own-inner", "it is the wrapped service that is called", "receiver roots %s" % sorted(map(repr, sig(rs))), c.where())
-    for c in hc:
-        rr = f.roots(c.args[0])
-        ctx.check(any(r.kind == "arg" and r.desc == "req" for r in rr), "ValidateSNIService::call|validates-request", "handle() inspects the caller's request", "handle() argument differs", c.where())
-    errs = [b for (b, i, s) in f.aggregates("server::conn::tls::sni::SNIMiddlewareError", "SNI")]
-    for b in errs:
-        ok, w = f.guarded(b, L_variant(f, "Some", of_call="server::conn::tls::sni::handle"))
-        ctx.check(ok, "ValidateSNIService::call|error-only-if-rejected", "the SNI error is produced only when handle() returned Some(error)", "SNI error without rejection", f.where(b), f.path_desc(w))
-    ctx.floor("ValidateSNIService::call|error", len(errs), 1, "SNI error result")
+    """ValidateSNIService::call: a rejected request never reaches the application and answers with the SNI error; an accepted one
+    is passed - the same request, once - to the wrapped service.  Two-row decision table (handle() rejects / accepts)."""
+    import inline
+    from core import AbsPaths, VALUE_EQ, deref_value
+    fn = facts.method("server::conn::tls::sni::ValidateSNIService", "Service", "call")
+    u = inline.inline(facts, fn, 4, lambda ck, raw: "::_::" not in ck and not re.search(r"sni::handle$", norm(ck)), expand=True)
+    ctx.touched(u)
+    LOG = -81
+
+    def has(v, tag, depth=10):
+        if v is None or depth == 0:
+            return False
+        if v[0] == "const":
+            return v[1] == tag
+        if v[0] == "refval":
+            return has(v[1], tag, depth - 1)
+        if v[0] == "variant":
+            return any(has(x, tag, depth - 1) for _, x in v[2])
+        return False
+    rows = 0
+    for verdict in ("reject", "accept"):
+        def o_handle(ev, st, t, site, verdict=verdict):
+            d = t["dest"]
+            st[d["l"]] = ("variant", "Some", ((0, ("const", "SNI_ERROR")),)) if verdict == "reject" else ("variant", "None", ())
+            return True
+
+        def o_inner(ev, st, t, site):
+            recv = deref_value(st, ev._eval_operand(st, site.args[0])) if site.args else None
+            req = deref_value(st, ev._eval_operand(st, site.args[1])) if len(site.args) > 1 else None
+            l = st.get(LOG) or ("list", ())
+            st[LOG] = ("list", l[1] + (("const", "inner-call:%s:%s" % (recv[1] if recv is not None and recv[0] == "const" else "?", req[1] if req is not None and req[0] == "const" else "?")),))
+            st[t["dest"]["l"]] = ("const", "INNER_FUTURE")
+            return True
+
+        def o_wrap(ev, st, t, site):
+            v = deref_value(st, ev._eval_operand(st, site.args[0])) if site.args else None
+            if v is None:
+                return False
+            st[t["dest"]["l"]] = ("variant", "wrapped", ((0, v),))
+            return True
+        raw = [(r"sni::handle$", o_handle), (r"Service.*::call$", o_inner), (r"future::ready$|TryFutureExt.*::map_err$|Either.*::(Left|Right)$|Into.*::into$|From.*::from$", o_wrap)]
+        adt = facts.adt("server::conn::tls::sni::ValidateSNIService")
+        this = ("variant", "ValidateSNIService", tuple((i, ("const", "INNER_SERVICE")) for i, _ in enumerate(adt["variants"][0]["fields"])))
+        key = "ValidateSNIService::call|table|handle-%ss" % verdict
+        try:
+            outs = AbsPaths(u, raw_oracles=raw, oracles=[VALUE_EQ]).outcomes(state={1: ("refmut", 9000), 9000: this, 2: ("const", "REQ"), LOG: ("list", ())}, extra_keys=(LOG,))
+        except AbsPaths.Undecided as e:
+            ctx.undecided(key, str(e))
+            continue
+        rows += 1
+        got = set()
+        for (rv, _, (lg,)) in outs:
+            got.add((tuple(e[1] for e in lg[1]) if lg is not None else None, has(rv, "SNI_ERROR"), has(rv, "INNER_FUTURE")))
+        want = {((), True, False)} if verdict == "reject" else {(("inner-call:INNER_SERVICE:REQ",), False, True)}
+        ctx.check(got == want, key, "a request handle() %ss: %s" % (verdict, "is answered with the SNI error and never reaches the wrapped service" if verdict == "reject" else "goes - unchanged, once - to the wrapped service, whose future is returned"),
+                  "a request handle() %ss: (calls of the wrapped service, answer carries the SNI error, answer carries the inner future) = %s, expected %s" % (verdict, sorted(map(str, got)), sorted(map(str, want))), u.where())
+    ctx.floor("ValidateSNIService::call|table-rows", rows, 2, "scenarios evaluated")
 
 
 def C20_5(ctx, facts):
     entries = [facts.unit(facts.fn("server::conn::tls::sni::handle")).key, facts.unit(facts.method("server::conn::tls::sni::ValidateSNIService", "Service", "call")).key]
     st = panics.run(ctx, facts, entries, c17.TABLE, "sni", min_sites=0, scope=lambda fn: "tls::sni" in fn.nkey or fn.nkey.startswith("info::tls"))
     ctx.assume("E-PANIC sni: %s" % st)
+
+
+def C20_table(ctx, facts):
+    """Which requests are forwarded, marked validated or rejected: the decision table of sni::handle (snitable.py)."""
+    import snitable
+    snitable.table(ctx, facts)
 
 
 def C20_6(ctx, facts):
@@ -266,8 +307,7 @@ def C20_6(ctx, facts):
 
 RULES = [
     ("C20.6", C20_6, CFG),
-    ("C20.1", C20_1_3, CFG),
-    ("C20.2", C20_2, CFG),
+    ("C20.1", C20_table, CFG),
     ("C20.4", C20_4, CFG),
     ("C20.5", C20_5, CFG),
 ]
